@@ -24,4 +24,21 @@ PROPS = {
         'level_note': 'Trusted: Lean kernel; fastrand.Uint32n uniform on [0,n); the go/ast extractor; the statistical correspondence (validation only). '
                       'Domain restriction NoWrap (sum of weights < 2^32).',
     },
+    'C14': {
+        'rule': 'expansion: every label tuple of length 1..3 over a 4-label alphabet for 3 namespace/domain configurations plus random hosts of 1..5 labels '
+                '(each also re-expanded); binding: real client with scripted control plane, 4 successive name tables per client (fqdn keys, literal keys, '
+                'both, keys without addresses, upper-case keys), 40 lookups per table with case flips and port forms (none, :80, :8888, empty, two colons); '
+                'end to end: subscribe by host name, push listeners named ip_port, look up. Non-trivial: a host that needs expansion, resolves, or differs from its lower-case form',
+        'assumptions': COMMON_ASSUME + [
+            'domain: ASCII host names (Go strings.ToLower is Unicode-aware, the model lower-cases ASCII only); name-table addresses are non-empty strings',
+            'the name table is a Go map (unique keys)',
+        ],
+        'level_text': 'Theorems over all strings, tables and namespace/domain configurations: expansion leaves names containing ".svc." unchanged, is idempotent, '
+                      'appends exactly namespace/".svc."/domain by label count (expand_shape); resolution depends on the host only through its lower-case form, '
+                      'consults the expanded name first and the literal host as the only fall-back; the listener name is <ip>_<port> with port 80 by default and '
+                      'more than one colon rejected; a host neither form of which the table resolves is never bound. The literals are re-read from the source on every run '
+                      '(bridge facts_fqdn). The binding of the *served* listener over update histories is carried by C01 (its LDS filter is this function applied to the table current at the push). '
+                      'Model validated against tryExpandFQDN / resolveAddr / getListenerName of the real client and end to end through NDS+LDS pushes.',
+        'level_note': 'Trusted: Lean kernel, extractor, correspondence harness. Domain: ASCII hosts, non-empty addresses.',
+    },
 }
